@@ -575,7 +575,7 @@ func c19DecoderReadsEveryFieldFromItsBytes(p *Prog, r *Report, rule string) {
 	var dataParam types.Object
 	for _, o := range paramObjs(unm) {
 		if o != nil {
-			if sl, ok := o.Type().(*types.Slice); ok && types.Identical(sl.Elem(), types.Typ[types.Byte]) {
+			if sl, ok := o.Type().Underlying().(*types.Slice); ok && types.Identical(sl.Elem(), types.Typ[types.Byte]) {
 				dataParam = o
 			}
 		}
